@@ -74,6 +74,41 @@ theorem C02_id_injective (a0 a1 a2 a3 a4 a5 a6 a7 a8 a9 a10 a11 a12 a13 a14 a15
     hex_pair_inj h9h h9l, hex_pair_inj h10h h10l, hex_pair_inj h11h h11l, hex_pair_inj h12h h12l,
     hex_pair_inj h13h h13l, hex_pair_inj h14h h14l, hex_pair_inj h15h h15l⟩
 
+/-- The slices of one pool refill are 16 bytes each and, put together, are the refill: no byte of the pool is handed
+    to two builders and none is skipped. -/
+theorem C02_pool_slices (pool : Bytes) (h : 32 ≤ pool.length) (h16 : pool.length % 16 = 0) :
+    (∀ d ∈ draws pool, d.length = 16) ∧ (draws pool).flatten = pool := by
+  have hlt : ¬ pool.length < 32 := by omega
+  constructor
+  · intro d hd
+    simp only [draws, hlt, if_false, List.mem_map, List.mem_range] at hd
+    obtain ⟨k, hk, rfl⟩ := hd
+    simp only [List.length_take, List.length_drop]
+    have : 16 * k + 16 ≤ pool.length := by
+      have := Nat.div_mul_cancel (Nat.dvd_of_mod_eq_zero h16)
+      have : (k + 1) * 16 ≤ pool.length / 16 * 16 := Nat.mul_le_mul_right 16 hk
+      omega
+    omega
+  · simp only [draws, hlt, if_false]
+    have key : ∀ n (l : Bytes), l.length = 16 * n →
+        ((List.range n).map (fun k => (l.drop (16 * k)).take 16)).flatten = l := by
+      intro n
+      induction n with
+      | zero => intro l hl; simp at hl; simp [hl]
+      | succ n ih =>
+        intro l hl
+        rw [List.range_succ_eq_map, List.map_cons, List.flatten_cons, List.map_map]
+        have h1 : ((List.range n).map ((fun k => (l.drop (16 * k)).take 16) ∘ Nat.succ)) =
+            (List.range n).map (fun k => ((l.drop 16).drop (16 * k)).take 16) := by
+          apply List.map_congr_left
+          intro k _
+          simp only [Function.comp, List.drop_drop]
+          congr 2
+          omega
+        rw [h1, ih (l.drop 16) (by simp; omega)]
+        simp
+    exact key (pool.length / 16) pool (by omega)
+
 /-- non-vacuity: a concrete draw and the id it gives -/
 example : recordIdField [0, 1, 2, 3, 4, 5, 6, 7, 8, 9, 10, 11, 12, 13, 14, 255] =
     some [60, 117, 114, 110, 58, 117, 117, 105, 100, 58, 48, 48, 48, 49, 48, 50, 48, 51, 45, 48, 52, 48, 53, 45, 52, 54, 48, 55, 45, 56, 56, 48, 57, 45, 48, 97, 48, 98, 48, 99, 48, 100, 48, 101, 102, 102, 62] := by decide   -- "<urn:uuid:00010203-0405-4607-8809-0a0b0c0d0eff>"
